@@ -59,7 +59,7 @@ def sweep(configs, bound, bases=("spawned-first", "continue"), thin=1):
     def gen():
         for cfg in configs:
             for base in bases:
-                spec0 = {"kind": "dev", "base": base, "pick": "lowest", "deliver": "late", "dev": []}
+                spec0 = {"kind": "dev", "base": base, "pick": "lowest", "deliver": "late", "gran": cfg.get("_gran", "line"), "dev": []}
                 yield dict(copy.deepcopy(cfg), sched=spec0)
                 try:
                     r = P.run_pool_case(dict(copy.deepcopy(cfg), sched=spec0))
